@@ -1,2 +1,13 @@
-#!/bin/sh
-exit 0
+#!/bin/bash
+# Offline setup: vendor the repo's dependency sources (from the local cargo cache) so that
+# Kani's own cargo can resolve Cargo.lock without a registry index.
+set -euo pipefail
+cd "$(dirname "$0")"
+V=/verif/.cache/vendor
+mkdir -p /verif/.cache
+if [ ! -f "$V/.complete" ]; then
+  rm -rf "$V"
+  (cd /repo && CARGO_NET_OFFLINE=true cargo vendor --offline --respect-source-config --versioned-dirs "$V" >/verif/.cache/vendor.log 2>&1)
+  touch "$V/.complete"
+fi
+echo "setup ok: $(ls $V | wc -l) vendored crates"
